@@ -3,4 +3,5 @@ pub mod automata;
 pub mod fsworld;
 pub mod gen;
 pub mod lang;
+pub mod rules;
 pub mod syntax;
